@@ -95,7 +95,14 @@ func mutateInsert(current, value interface{}) (interface{}, interface{}) {
 	}
 	if vc.Kind() == reflect.Map && vv.Kind() == reflect.Map {
 		if vc.IsNil() && vv.Len() > 0 {
-			return value, value
+			// the new value and the difference must not share memory, later
+			// mutations of the same column modify each of them
+			diff := reflect.MakeMapWithSize(vv.Type(), vv.Len())
+			iter := vv.MapRange()
+			for iter.Next() {
+				diff.SetMapIndex(iter.Key(), iter.Value())
+			}
+			return value, diff.Interface()
 		}
 		diff := reflect.MakeMap(vc.Type())
 		iter := vv.MapRange()
